@@ -890,3 +890,173 @@ Section IffC.
     rewrite (between_iffc _ _ _ _ _ _ _ _ _ HwL HwR HG EF). reflexivity.
   Qed.
 End IffC.
+
+(* ---- corollaries ---- *)
+Lemma equal_no_difference_c : forall path_eq cfg L R es,
+  wf_doc L = true -> wf_doc R = true -> kguard_c cfg L R None PNone = true ->
+  data_eq L R = true ->
+  compare_to path_eq cfg L R = Ok es -> shows_difference es = false.
+Proof.
+  intros path_eq cfg L R es HwL HwR HG D H.
+  rewrite (compare_to_iff_c path_eq cfg L R es HwL HwR HG H).
+  rewrite (data_eq_equiv_c cfg L R None PNone HwL HwR HG D). reflexivity.
+Qed.
+
+Lemma reflexive_c : forall path_eq cfg L es,
+  wf_doc L = true -> kguard_c cfg L L None PNone = true ->
+  compare_to path_eq cfg L L = Ok es -> shows_difference es = false.
+Proof. intros. eapply equal_no_difference_c; eauto. apply data_eq_refl. Qed.
+
+(* a configuration that never selects an identity-key mode needs no guard *)
+Lemma cfg_list_mode_key : forall cfg nc rels d, cfg_list_mode cfg nc rels = Some (LKey d) ->
+  aoh_diff_mode cfg nc = Ok (if d then AohDeep else AohKey).
+Proof.
+  intros cfg nc rels d H. unfold cfg_list_mode in H.
+  destruct rels as [|[| | |] rr];
+    try (destruct (array_diff_mode cfg nc) as [[|]| |]; discriminate H).
+  destruct (aoh_diff_mode cfg nc) as [[| | | |]| |]; try discriminate H;
+    try (destruct (array_diff_mode cfg nc) as [[|]| |]; discriminate H);
+    inversion H; reflexivity.
+Qed.
+
+Lemma zipalli_all {A} (f : nat -> A -> A -> bool) : forall l l' n,
+  (forall k x y, In x l -> f k x y = true) -> zipalli f n l l' = true.
+Proof.
+  induction l as [|x r IH]; destruct l' as [|y r']; simpl; intros n H; auto.
+  rewrite (H n x y (or_introl eq_refl)). simpl. apply IH. intros k a b Ha. apply H. right; exact Ha.
+Qed.
+
+Theorem kguard_c_nokey : forall cfg, nokey_cfg cfg ->
+  forall a b par pref, kguard_c cfg a b par pref = true.
+Proof.
+  intros cfg Hn.
+  induction a as [i v|i kvs IH|i els IH|i els IH] using node_ind'; intros b par pref;
+    destruct b as [j w|j kvs'|j els'|j els']; try reflexivity.
+  - rewrite kguard_c_map. apply forallb_forall. intros kv Hkv. apply forallb_forall. intros kv' Hkv'.
+    rewrite Forall_forall in IH. destruct (IH kv Hkv) as [_ IHv].
+    destruct (py_eq _ _); auto.
+  - rewrite kguard_c_seq. rewrite Forall_forall in IH. set (b := NSeq j els').
+    destruct (cfg_list_mode cfg (b, par, pref) els') as [[[|]| |d]|] eqn:M; auto.
+    + apply zipalli_all. intros k x y Hx. apply IH; auto.
+    + generalize (enumerate els'). clear M. induction els as [|x r IHr]; intros red; simpl; auto.
+      destruct (extract_first (fun p => data_eq (snd p) x) red) as [[p red']|].
+      * rewrite (IH x (or_introl eq_refl)). simpl. apply IHr. intros y Hy. apply IH. right; exact Hy.
+      * apply IHr. intros y Hy. apply IH. right; exact Hy.
+    + exfalso. apply cfg_list_mode_key in M. destruct (Hn (b, par, pref)) as [N1 N2]. destruct d; auto.
+Qed.
+
+Lemma nonsame_iff_differ_nokey : forall path_eq cfg L R es,
+  nokey_cfg cfg -> wf_doc L = true -> wf_doc R = true ->
+  compare_to path_eq cfg L R = Ok es -> shows_difference es = negb (equiv_c cfg L R None PNone).
+Proof. intros. eapply compare_to_iff_c; eauto. apply kguard_c_nokey; auto. Qed.
+
+Lemma reflexive_nokey : forall path_eq cfg L es,
+  nokey_cfg cfg -> wf_doc L = true ->
+  compare_to path_eq cfg L L = Ok es -> shows_difference es = false.
+Proof. intros. eapply reflexive_c; eauto. apply kguard_c_nokey; auto. Qed.
+
+(* ---- the configured equivalence generalises the uniform one ---- *)
+Lemma cfg_list_mode_uniform : forall cfg am hm nc rels, uniform cfg am hm ->
+  cfg_list_mode cfg nc rels = Some (list_mode am hm rels).
+Proof.
+  intros cfg am hm nc rels [Ha Hh]. unfold cfg_list_mode, list_mode. rewrite Ha, Hh.
+  destruct rels as [|[| | |] rr]; destruct am, hm; reflexivity.
+Qed.
+
+Lemma forall2i_const {A} (f : A -> A -> bool) (g : nat -> A -> A -> bool) : forall l l' n,
+  (forall k x y, In x l -> g k x y = f x y) -> forall2i g n l l' = forall2b f l l'.
+Proof.
+  induction l as [|x r IH]; destruct l' as [|y r']; simpl; intros n H; auto.
+  rewrite (H n x y (or_introl eq_refl)). f_equal. apply IH. intros k a b Ha. apply H. right; exact Ha.
+Qed.
+
+Theorem equiv_c_uniform : forall cfg am hm, uniform cfg am hm -> unkeyed hm = true ->
+  forall a b par pref, equiv_c cfg a b par pref = equiv am hm a b.
+Proof.
+  intros cfg am hm Hu Hk.
+  induction a as [i v|i kvs IH|i els IH|i els IH] using node_ind'; intros b par pref;
+    destruct b as [j w|j kvs'|j els'|j els']; try reflexivity.
+  - rewrite equiv_c_map, equiv_map. f_equal.
+    apply forallb_ext_in. intros kv Hkv.
+    rewrite Forall_forall in IH. destruct (IH kv Hkv) as [_ IHv].
+    generalize (Some (NMap j kvs')) as p. intros p.
+    clear - IHv. induction kvs' as [|kv' r IHr]; simpl; auto. rewrite IHv, IHr. reflexivity.
+  - rewrite equiv_c_seq, equiv_seq. f_equal. rewrite (cfg_list_mode_uniform cfg am hm _ _ Hu).
+    rewrite Forall_forall in IH.
+    destruct (list_mode am hm els') as [[|]| |d] eqn:M; auto.
+    + apply forall2i_const. intros k x y Hx. apply IH; auto.
+    + exfalso. exact (list_mode_unkeyed _ _ _ _ Hk M).
+Qed.
+
+(* ---- concrete configurations with [rules] / [keys] (non-vacuity, witnesses) ---- *)
+Open Scope string_scope.
+Definition ci (o : N) : info := mkinfo o None true None.
+Definition ints (o : N) (l : list Z) : node :=
+  NSeq (ci o) (map (fun z => pl_leaf (o + 1 + Z.to_N z) (PInt z)) l).
+Definition xy_doc (o : N) (xs ys : list Z) : node :=
+  NMap (ci o) [(pl_leaf (o + 1) (PStr "x"), ints (o + 10) xs); (pl_leaf (o + 2) (PStr "y"), ints (o + 20) ys)].
+(* [rules] /x = value, resolved against the right-hand document [R] *)
+Definition rules_cfg (R : node) : dcfg :=
+  match R with
+  | NMap _ ((_, x) :: _) =>
+      mkdcfg true [mkrule x (Some R) (PStr "x") "value"] [] None None None None
+  | _ => mkdcfg true [] [] None None None None
+  end.
+
+Definition rec2 (o : N) (id : Z) (name : string) : node :=
+  NMap (ci o) [(pl_leaf (o + 1) (PStr "id"), pl_leaf (o + 2) (PInt id));
+               (pl_leaf (o + 3) (PStr "name"), pl_leaf (o + 4) (PStr name))].
+Definition recs_doc (o : N) (l : list (Z * string)) : node :=
+  NMap (ci o) [(pl_leaf (o + 1) (PStr "r"),
+                NSeq (ci (o + 2)) (map (fun p => rec2 (o + 10 * (1 + Z.to_N (fst p)) + 100 * N.of_nat (String.length (snd p))) (fst p) (snd p)) l))].
+(* --aoh key with [keys] /r = <k>, resolved against the right-hand document *)
+Definition keys_cfg (k : string) (R : node) : dcfg :=
+  match R with
+  | NMap _ ((_, r) :: _) =>
+      mkdcfg true [] [mkrule r (Some R) (PStr "r") k] None (Some "key") None None
+  | _ => mkdcfg true [] [] None (Some "key") None None
+  end.
+
+(* per-path rule: x is compared by value (reordered: no difference), y by position *)
+Lemma rules_example :
+  let L := xy_doc 0 [1; 2; 3]%Z [1; 2; 3]%Z in
+  let R := xy_doc 100 [3; 1; 2]%Z [1; 2; 3]%Z in
+  let R' := xy_doc 100 [1; 2; 3]%Z [3; 1; 2]%Z in
+  (wf_doc L = true /\ wf_doc R = true /\ wf_doc R' = true) /\
+  (~ uniform (rules_cfg R) ArrPosition AohPosition /\ ~ uniform (rules_cfg R) ArrValue AohPosition) /\
+  kguard_c (rules_cfg R) L R None PNone = true /\
+  equiv_c (rules_cfg R) L R None PNone = true /\ data_eq L R = false /\
+  (exists es, compare_to path_eq_real (rules_cfg R) L R = Ok es /\ shows_difference es = false) /\
+  equiv_c (rules_cfg R') L R' None PNone = false /\
+  (exists es, compare_to path_eq_real (rules_cfg R') L R' = Ok es /\ shows_difference es = true).
+Proof.
+  cbv zeta. split; [repeat split; vm_compute; reflexivity|]. split.
+  - split; intros [Ha _].
+    + specialize (Ha (ints 110 [3; 1; 2]%Z, Some (xy_doc 100 [3; 1; 2]%Z [1; 2; 3]%Z), PStr "x")). vm_compute in Ha. discriminate.
+    + specialize (Ha (ints 120 [1; 2; 3]%Z, Some (xy_doc 100 [3; 1; 2]%Z [1; 2; 3]%Z), PStr "y")). vm_compute in Ha. discriminate.
+  - repeat split; try (vm_compute; reflexivity); eexists; split; vm_compute; reflexivity.
+Qed.
+
+(* [keys] /r = name: the records share the first key's value (id), so the default
+   identity would not tell them apart; the configured key does *)
+Lemma keys_example :
+  let L := recs_doc 0 [(1%Z, "a"); (1%Z, "bb")] in
+  let R := recs_doc 1000 [(1%Z, "bb"); (1%Z, "a")] in
+  wf_doc L = true /\ wf_doc R = true /\ c_keys (keys_cfg "name" R) <> [] /\
+  kguard_c (keys_cfg "name" R) L R None PNone = true /\
+  equiv_c (keys_cfg "name" R) L R None PNone = true /\ data_eq L R = false /\
+  (exists es, compare_to path_eq_real (keys_cfg "name" R) L R = Ok es /\ shows_difference es = false) /\
+  kguard_c (keys_cfg "id" R) L R None PNone = false.
+Proof.
+  cbv zeta. repeat split; try (vm_compute; reflexivity); try (vm_compute; discriminate).
+  eexists; split; vm_compute; reflexivity.
+Qed.
+
+(* F4 with a [keys] table: the configured identity key is missing from the records *)
+Lemma reflexive_cfg_refuted_witness :
+  exists cfg d es, c_keys cfg <> [] /\ wf_doc d = true /\ kguard_c cfg d d None PNone = false /\
+    compare_to path_eq_real cfg d d = Ok es /\ shows_difference es = true.
+Proof.
+  exists (keys_cfg "nom" (recs_doc 0 [(1%Z, "a")])), (recs_doc 0 [(1%Z, "a")]).
+  eexists. repeat split; try (vm_compute; reflexivity). vm_compute; discriminate.
+Qed.
